@@ -447,6 +447,9 @@ fn check_guess_unchanged(ctx: &mut Ctx, what: &str, g: &Vle, before: &Fingerprin
 fn exec_session(sc: &Session) -> RunOutcome {
     let mut ctx = Ctx::new();
     install_faults(&sc.faults, (0.0, 1.0));
+    if sc.max_iter.is_some() {
+        ctx.out.count("fault.iteration_budget_cut", 1);
+    }
     let mut pool_v: Vec<(Vle, bool)> = Vec::new(); // (result, is_flash)
     let opts = options(sc.max_iter);
     for (i, op) in sc.ops.iter().enumerate() {
@@ -915,6 +918,9 @@ fn linspace(a: f64, b: f64, n: usize) -> Vec<f64> {
 fn exec_driver(sc: &Driver) -> RunOutcome {
     let mut ctx = Ctx::new();
     let opts = options(sc.max_iter);
+    if sc.max_iter.is_some() {
+        ctx.out.count("fault.iteration_budget_cut", 1);
+    }
     match &sc.kind {
         DKind::Pure | DKind::ParPure { .. } => driver_pure(&mut ctx, sc, opts),
         DKind::BinaryVleT { tf } => driver_binary_t(&mut ctx, sc, *tf, opts),
@@ -1552,7 +1558,7 @@ impl Engine for C12 {
         if self.driver {
             "one case = one call of a continuation driver (PhaseDiagram::pure / par_pure / binary_vle at T and at p / bubble_point_line / dew_point_line / lle flash line) with seeded npoints, range and a fault plan (injected failures of the per-point solver placed on the grid, skipped initialisation stages, iteration budget cuts); every returned point is compared with the stand-alone solve at its own specification (fault points suspended), plus ordering, critical-point-last and bounded progress once faults stop; distinct = distinct scenario JSON; non-trivial = at least two points compared.".into()
         } else {
-            "one case = a seeded session of 2..30 guided solves against one system (pure VLE at T/p, bubble/dew at T/p, Tp-flash incl. same-(T,p)-other-feed, new_npt with InitialDensity, new_nvu/nph/nps with initial temperature, critical point) in which later operations take earlier results as guesses, with buggify faults (initialisation stage skipped, guess discarded, iteration budget cut); oracle = memoryless stand-alone solve applied inside the property's window (guess within 0.3 Tc / factor 3 in pressure); distinct = distinct scenario JSON; non-trivial = at least one guided result compared.".into()
+            "one case = a seeded session of 2..30 guided solves against one system (pure VLE at T/p guided by earlier results, by continuation chains in either direction or by un-converged new_npt guesses; bubble/dew at T/p with pressure/temperature and composition guesses; Tp-flash guided by earlier flashes incl. same-(T,p)-other-feed, same-p-other-T, same-T-other-p and un-converged new_npt guesses; new_npt with InitialDensity; new_nvu/nph/nps with initial temperature; critical point) in which later operations take earlier results as guesses, with buggify faults (initialisation stage skipped, guess discarded, iteration budget cut); oracle = memoryless stand-alone solve applied inside the property's window (guess within 0.3 Tc / factor 3 in pressure); distinct = distinct scenario JSON; non-trivial = at least one guided result compared.".into()
         }
     }
     fn components(&self) -> Value {
